@@ -166,7 +166,7 @@ def build_facts(config="union", callgraph=True):
                 raise SystemExit(f"fv: fact file missing for {c}: driver was skipped")
         open(stamp, "w").write(str(time.time() - t0))
         log(f"facts[{config}] built in {time.time() - t0:.1f}s -> {out}")
-        _prune_cache(keep=6)
+        _prune_cache(keep=10)
         return out
 
 
